@@ -460,6 +460,8 @@ func (fs *readOnlyFsInternal) populateFS(bundle *core.Bundle) (*ReadOnlyFS, erro
 	if err := fs.insertDirEntry(txns, fuseops.RootInodeID, *dirFsEntry); err != nil {
 		return nil, err
 	}
+	// the root can be listed even when the bundle has no entry
+	fs.readDirMap[fuseops.RootInodeID] = []fuseutil.Dirent{}
 
 	fs.l.Info("Populating fs", zap.Int("entryCount", len(fs.bundle.BundleEntries)))
 	if err := populateFSAddBundleEntries(&populate{fs: fs, bundle: bundle, txns: txns}); err != nil {
